@@ -180,7 +180,7 @@ def replay_pair(cx, case, rng, full_ops):
         cx.count("pairs_with_imaginary_phase")
 
 
-def replay_word(cx, case, rng):
+def replay_word(cx, case, rng, full=True):
     n = case["n"]
     L = labels_for(rng, n)
     wo = wire_order(case["ord"], L)
@@ -196,6 +196,12 @@ def replay_word(cx, case, rng):
     cx.mat("sent:to_mat:dense", lambda: ps.to_mat(wire_order=wo), exp, case, L)
     dflt = (sum(case["a"]) + sum(case["ord"])) % 4 == 0
     cx.mat("sent:to_mat:csr", lambda: ps.to_mat(wire_order=wo, format="csr", buffer_size=None if dflt else 48 * len(exp)), exp, case, L)
+    if 0 in case["ord"]:
+        cx.count("word_orders_with_foreign_wire")
+    if case["ord"] != sorted(case["ord"]):
+        cx.count("word_orders_permuted")
+    if not full:
+        return
     cx.sent("decompose:dense", lambda: qp.pauli_decompose(exp, wire_order=wo, pauli=True), one, L, case)
     cx.sent("decompose:sparse", lambda: qp.pauli_decompose(sps.csr_matrix(exp), wire_order=wo, pauli=True), one, L, case)
     if any(case["a"]):
@@ -205,10 +211,6 @@ def replay_word(cx, case, rng):
         cx.sent("word:string-roundtrip",
                 lambda: qp.pauli.pauli_sentence(qp.pauli.string_to_pauli_word(qp.pauli.pauli_word_to_string(op, wire_map=wm), wire_map=wm)),
                 one, L, case)
-    if 0 in case["ord"]:
-        cx.count("word_orders_with_foreign_wire")
-    if case["ord"] != sorted(case["ord"]):
-        cx.count("word_orders_permuted")
 
 
 def replay_sent(cx, case, rng):
@@ -390,7 +392,7 @@ def run_trace(name, recs):
 def run(tier, seed):
     rng = random.Random(seed)
     quick = tier == "quick"
-    NS = 200 if quick else 4000
+    NS = 160 if quick else 4000
     cx = Ctx()
     # ---- (M)+(R): generator, laws decided on the reference, expected values
     wd = lib.workdir(PID, "gen")
@@ -404,8 +406,8 @@ def run(tier, seed):
         raise lib.MachineryError(f"generator emitted an unexpected number of cases: { {k: len(v) for k, v in kinds.items()} }")
     for c in sorted(kinds["pair"], key=lambda c: (c["n"], c["a"], c["b"])):
         replay_pair(cx, c, rng, full_ops=(not quick) or (sum(c["a"]) + 3 * sum(c["b"])) % 3 == 0)
-    for c in sorted(kinds["word"], key=lambda c: (c["n"], c["a"], c["ord"])):
-        replay_word(cx, c, rng)
+    for k, c in enumerate(sorted(kinds["word"], key=lambda c: (c["n"], c["a"], c["ord"]))):
+        replay_word(cx, c, rng, full=(not quick) or k % 2 == 0)
     nontriv = set()
     for c in sorted(kinds["sent"], key=lambda c: c["i"]):
         before = len(cx.agg.d)
@@ -413,7 +415,7 @@ def run(tier, seed):
         if len(c["sn"]) >= 1 and len(c["tn"]) >= 1 and len(cx.agg.d) == before:
             nontriv.add((c["n"], json.dumps(c["sn"]), json.dumps(c["tn"])))
     # ---- (T): seeded larger sentences through the real classes, validated by TLC
-    npairs = 120 if quick else 2000
+    npairs = 100 if quick else 2000
     recs, meta = trace_part(cx, rng, npairs, 4 if quick else 5)
     # controls for the trace spec (hand-written, independent of the implementation): accepted / rejected as expected
     def T(w, c):
